@@ -51,7 +51,10 @@ RULE_C09 = ("for every enumerated / sampled pair and triple of closed, contracti
             "Vals_3(A) cap Vals_3(B) # {} => types_overlap(A = value type, B = pattern type) (witness); "
             "Vals(A) cap Vals(B) subset Vals('a & 'b); Vals(A)\\Vals(B) subset Vals(type of the value after "
             "a failed ='b branch).  Judged by TLC (TypesTrace.tla, invariant Conforms) on the answers "
-            "of the real code (typesreplay); send side of processes / receive of callables kept equal.")
+            "of the real code (typesreplay); send side of processes / receive of callables kept equal.  "
+            "Plus, end to end: compiled programs whose branch conditions test one value several times (all pairs "
+            "of non-trivial subsets of four tags); the value reaching each branch must inhabit the type the compiler "
+            "narrowed it to (TLC, Soundness.tla).")
 RULE_C08 = ("for every enumerated (pattern type T, value v, pattern form) and configuration in {direct, "
             "tree-shaken, merged after 1 / 2 other programs}: the verdict is the same in all "
             "configurations; accepted => v structurally inhabits T; every value of the static type "
@@ -885,6 +888,10 @@ def run_c09(prop, tier):
                             "case": {"g": c["g"], "roots": c["roots"], "judge": c["judge"],
                                      "narrow": c["narrow"]},
                             "is_compatible": ans.get("compat"), "types_overlap": ans.get("overlap")})
+    # narrowing as the COMPILER drives it (state kept across several checks of one value in one condition), end to
+    # end: compiled programs, real VM, (value, inferred type) judged by TLC against Soundness.tla
+    import soundness
+    soundness.judge_narrowing(check, prop)
     check.cov["mismatches_by_key"] = {str(k): len(v) for k, v in by_key.items()}
     if os.environ.get("TYPES_DUMP"):
         with open(os.path.join(WORKD, "mismatches.json"), "w") as f:
@@ -1035,6 +1042,13 @@ def render_vcase(vc):
     for form, pat, param in variants:
         head = "\n".join(aliases) + "\nf = #%s { | %s => Ok | No }" % (param, pat)
         out.append((form, head + "\n" + val + " f", head + "\n#{ " + val + " f }"))
+    if vc.get("block_forms"):
+        # the same patterns in a form whose program mentions the value's type NOWHERE but in the value itself (no
+        # function signature, `Yes` as the positive verdict): the value is made opaque by a branch, then matched
+        for form, pat in forms:
+            al = "\n".join(aliases)
+            body = "v = 1 { | =1 => %s | Zq }, v { | %s => Yes | No }" % (val, pat)
+            out.append(("block-" + form, al + "\n" + body.replace(" }, v {", " }\nv {"), al + "\n#{ " + body + " }"))
     # a receive source's parameter type: the message W[v] is offered to `#W['t]`; if the mailbox
     # filter (function_param_compatibility) refuses it the select times out and the message is
     # taken by the second, broad receive
@@ -1064,7 +1078,7 @@ def verdict_of(outcome):
     if t == "value":
         v = outcome.get("v")
         name = outcome.get("name") if v is None else (v.get("name") if isinstance(v, dict) else None)
-        if name == "Ok":
+        if name in ("Ok", "Yes"):
             return "acc"
         if name == "No":
             return "rej"
@@ -1072,6 +1086,22 @@ def verdict_of(outcome):
     if t in ("rejected", "nocode", "notfn"):
         return "skip"
     return "err"
+
+
+def _has_bare_a(x):
+    if isinstance(x, dict):
+        if x.get("k") == "tup" and x.get("name") == "A" and x.get("fs") == []:
+            return True
+        return any(_has_bare_a(v) for v in x.values())
+    return isinstance(x, list) and any(_has_bare_a(v) for v in x)
+
+
+def _rename_ok(x):
+    if isinstance(x, dict):
+        return {k: ("Ok" if k == "name" and v == "A" else _rename_ok(v)) for k, v in x.items()}
+    if isinstance(x, list):
+        return [_rename_ok(v) for v in x]
+    return x
 
 
 def c08_vcases(check, tier):
@@ -1131,6 +1161,14 @@ def run_c08(prop, tier):
     check = common.Check(prop, tier)
     check.cov["rule"] = RULE_C08
     vcs = c08_vcases(check, tier)
+    # The builtin tuple `Ok` (tuple id 1, pre-registered like nil) is special to tree-shaking and merging: every
+    # case whose value contains the field-less tuple `A` is run a second time with the name A replaced by Ok
+    # throughout (a bijection on names, so the enumerated expectations carry over unchanged).
+    # (seeded change C08-3: tree_shake kept the tuple Ok but not its TYPE entry, so after tree-shaking the value Ok
+    # was in no compatibility set and partial patterns / receive filters rejected it)
+    ren = [dict(_rename_ok(vc), block_forms=True) for vc in vcs if _has_bare_a(vc["v"])]
+    vcs = vcs + ren
+    check.cov["cases_rerun_with_builtin_Ok"] = len(ren)
     progs = []          # (case index, form, direct text, shaken text)
     unrenderable = collections.Counter()
     for ci, vc in enumerate(vcs):
@@ -1313,7 +1351,8 @@ def replay(prop, path):
         return 1 if check.violations else 0
     if obj.get("kind") == "c08":
         vc = obj["case"]
-        vc = {"g": vc["g"], "t": vc["t"], "v": vc["v"], "must": None, "may": None, "sc": None}
+        vc = {"g": vc["g"], "t": vc["t"], "v": vc["v"], "must": None, "may": None, "sc": None,
+              "block_forms": str(obj.get("form", "")).startswith("block-")}
         progs = render_vcase(vc)
         q = [{"id": "d%d" % i, "src": d} for i, (_, d, _) in enumerate(progs)]
         outs = common.qrun(q)
@@ -1338,5 +1377,11 @@ def replay(prop, path):
             check.violation(obj, what="%d mismatch(es) reproduced" % len(mism))
         else:
             print("  no disagreement on the current tree")
+        return 1 if check.violations else 0
+    if obj.get("kind") == "narrowing-program":
+        import soundness
+        soundness.judge_narrowing(check, prop, [obj["program"]])
+        if not check.violations:
+            print("  the value inhabits the narrowed type on the current tree")
         return 1 if check.violations else 0
     raise common.ToolError("unknown replay file kind in " + path)
